@@ -72,6 +72,21 @@ MappedPages == LET RECURSIVE Sum(_)
 \* ---- hooks called from the API actions (ApiTrace passes the live set explicitly)
 \* destructive OS event over [a,e) must not touch a live block
 AvoidsLive(L, a, e) == \A b \in DOMAIN L : DisjointR(a, e, L[b].a, L[b].e)
+\* bulk groups (address-sorted sequences of <<hi, lo, usable>>): does [a,e) hit a member?  (linear scan over the group's extent is avoided:
+\* the first member that ends after a is found by scanning from a binary-search position)
+RECURSIVE OsBS(_, _, _, _)
+OsBS(seq, lo, hi, x) == IF lo > hi THEN lo - 1 ELSE LET mid == (lo + hi) \div 2 IN
+                        IF LeA(<<seq[mid][1], seq[mid][2]>>, x) THEN OsBS(seq, mid + 1, hi, x) ELSE OsBS(seq, lo, mid - 1, x)
+HitsGroupSeq(seq, a, e) == LET n == Len(seq) i == OsBS(seq, 1, n, a) IN
+                             \/ (i >= 1 /\ LtA(a, AddA(<<seq[i][1], seq[i][2]>>, seq[i][3])))
+                             \/ (i + 1 <= n /\ LtA(<<seq[i + 1][1], seq[i + 1][2]>>, e))
+AvoidsGroups(GR, a, e) == \A g \in DOMAIN GR : ~HitsGroupSeq(GR[g].blocks, a, e)
+\* a bulk group was allocated and written: its units are dirty
+OsBatch(blocks, wr) ==
+  /\ ostep' = ostep + 1
+  /\ dirtyU' = IF oscfg.shim /\ wr > 0 THEN dirtyU \cup UNION {UnitsCovering(<<blocks[i][1], blocks[i][2]>>, AddA(<<blocks[i][1], blocks[i][2]>>, Min(wr, blocks[i][3]))) : i \in 1..Len(blocks)} ELSE dirtyU
+  /\ cand' = cand \ UNION {UnitsCovering(<<blocks[i][1], blocks[i][2]>>, AddA(<<blocks[i][1], blocks[i][2]>>, blocks[i][3])) : i \in 1..Len(blocks)}
+  /\ UNCHANGED <<maps, now, round, t0set, lastInuse, refusedU, prevQ, oscfg>>
 
 \* an allocating call returned block [a, a+us) of which the program wrote the first wr bytes
 OsBlockReturned(a, us, wr) ==
@@ -91,7 +106,7 @@ OsWrite(a, wr) ==
 Destructive(ev) == ev.call = "munmap" \/ (ev.call = "madvise" /\ ev.arg \in {"DONTNEED", "FREE"})
                    \/ (ev.call = "mprotect" /\ ev.arg = "NONE") \/ (ev.call = "mmap" /\ ev.fixed)
 
-OsEvent(ev, L) ==
+OsEvent(ev, L, GR) ==
   LET a == ev.a  e == AddP(ev.a, ev.len) IN
   /\ ostep' = ostep + 1
   /\ UNCHANGED <<now, round, t0set, lastInuse, prevQ, oscfg>>
@@ -100,7 +115,7 @@ OsEvent(ev, L) ==
           /\ refusedU' = IF Destructive(ev) THEN refusedU \cup UnitsCovering(a, e) ELSE refusedU
           /\ UNCHANGED <<maps, dirtyU, cand>>
      ELSE /\ UNCHANGED refusedU
-          /\ (Destructive(ev) => OG("DestructiveAvoidsLive", ev.call, AvoidsLive(L, a, e)))
+          /\ (Destructive(ev) => OG("DestructiveAvoidsLive", ev.call, AvoidsLive(L, a, e) /\ AvoidsGroups(GR, a, e)))
           /\ ((oscfg.purge_delay = -1 /\ ((ev.call = "madvise" /\ ev.arg \in {"DONTNEED", "FREE"}) \/ (ev.call = "mprotect" /\ ev.arg = "NONE")))
                 => OG("NeverPurgesWhenDisabled", ev.call, UnitsInside(a, e) \cap dirtyU = {}))
           /\ dirtyU' = IF Destructive(ev) THEN dirtyU \ UnitsInside(a, e) ELSE dirtyU
